@@ -10,18 +10,32 @@ Codes_quick == {200, 204, 304, 404, 308, 429, 500, 502}
 Codes_mc    == {200, 204, 308, 502}
 Codes_gen   == {200, 204, 404, 308}
 Codes_none  == {}
+\* the first and last code of every class the proxy may see as a final answer (1xx interim answers are not generated)
+Codes_bound == {200, 299, 300, 399, 400, 499, 500, 599}
 Codes_one   == {200}
 Codes_cut   == {200, 308}
 
 Hdrs_none  == { <<>> }
 Hdrs_one   == { <<"content-type: text/plain">> }
 Hdrs_small == { <<>>, <<"content-type: text/plain", "set-cookie: a=1", "set-cookie: b=2">> }
+\* degenerate values (empty, blanks inside), a value with ':' and the same name three times in non-sorted order
+Hdrs_edge  == { <<"x-empty: ", "set-cookie: z=1", "etag: \"a:b\"", "set-cookie: a=2", "x-two: two  words, and a tab\tinside", "set-cookie: m=3">> }
+\* 36 headers: the same name six times among thirty others (sort stability thresholds at 20 and 32 elements)
+Hdrs_many  == { [i \in 1..36 |-> IF i % 6 = 0 THEN "set-cookie: c" \o ToString(40 - i) \o "=v"
+                                  ELSE "x-h" \o ToString(50 - i) \o ": " \o ToString(i)] }
+Hdrs_edgemany == Hdrs_edge \cup Hdrs_many
+Hdrs_bounds == Hdrs_none \cup Hdrs_edgemany
 Hdrs_more  == Hdrs_small \cup { <<"x-up: v w", "location: /x?y=1">>, <<"connection: close">> }
 
 Units == <<"61", "6263", "0d0a", "ff00", "30", "7a7a7a">>
+\* chunk / body sizes around the hex digit boundaries: 15, 16, 26 (1a / 1A), 255, 256, 4096 bytes
+RECURSIVE Rep(_, _)
+Rep(h, n) == IF n = 0 THEN "" ELSE h \o Rep(h, n - 1)
+Units_sizes_quick == <<Rep("6f", 15), Rep("70", 16), Rep("7a", 26), Rep("ff", 255), Rep("00", 256)>>
+Units_sizes == <<Rep("6f", 15), Rep("70", 16), Rep("7a", 26), Rep("ff", 255), Rep("00", 256), Rep("0a", 4096)>>
 
 R(m, uri, q, hdrs, xff, body, peer) == [m |-> m, uri |-> uri, q |-> q, ver |-> "HTTP/1.1", hdrs |-> hdrs, xff |-> xff, body |-> body, pad |-> 0, peer |-> peer]
-Req_one == { R("GET", "/api/x", "", <<"host: h.example">>, <<>>, "-", "127.0.0.1") }
+Req_one == { R("GET", "/api/x", "", <<"host: h.example:8080">>, <<>>, "-", "127.0.0.1") }
 \* incoming X-Forwarded-For lists: none, 1, 2, 3 entries (IPv4 and IPv6)
 Xffs == { <<>>, <<"203.0.113.7">>, <<"203.0.113.7", "10.0.0.2">>, <<"2001:db8::1", "10.0.0.2", "192.0.2.33">> }
 \* client requests "as in C02": methods x uris x queries x header sets x incoming X-Forwarded-For x bodies, two peers
@@ -34,8 +48,9 @@ Req_c02 ==
 Req_quick == { r \in Req_c02 : r.m \in {"GET", "POST"} /\ r.peer = "127.0.0.1" /\ r.uri \in {"/api/x", "/api", "/api/post"} }
 \* requests whose body is followed by `pad` MiB of filler (the harness adds the Content-Length): 0 fits the socket
 \* buffers, 8 and 32 do not when the target never reads
-Req_pad == { [R("POST", "/api/up", "", <<"host: h.example">>, x, "6162", "127.0.0.1") EXCEPT !.pad = p] :
-               p \in {0, 8, 32}, x \in { <<>>, <<"203.0.113.7">> } }
+ReqPad(p, x) == [R("POST", "/api/up", "", <<"host: h.example", "content-length: " \o ToString(2 + p * 1048576)>>, x, "6162", "127.0.0.1") EXCEPT !.pad = p]
+Req_pad == { ReqPad(p, x) : p \in {0, 8, 32}, x \in { <<>>, <<"203.0.113.7">> } }
+Req_pad8 == { ReqPad(p, <<>>) : p \in {0, 8} }
 Routes_one == {"/api/*"}
 Routes_all == {"/api/*", "/api*", "/*", "*", "/api/x", "/a*/x"}
 
@@ -46,7 +61,7 @@ TermNow   == IF ust = "closed" THEN "eof" ELSE "stall"
 GenInv ==
   pc # "done" \/
   PrintT(ToJson([kind |-> scn.kind, g |-> scn.g, mode |-> umode, wire |-> uwire, entry |-> entry, req |-> req, route |-> route,
-                 ev |-> hist, lastin |-> lastin, took |-> now, connected |-> (scn.kind \notin {"refuse", "blackhole"}), noread |-> (scn.kind = "noread"),
+                 ev |-> hist, lastin |-> lastin, took |-> now, connected |-> (scn.kind \notin {"refuse", "blackhole"}), noread |-> (scn.kind \in {"noread", "lateread"} /\ \A i \in DOMAIN hist : hist[i].e # "read"),
                  segs |-> Delivered, term |-> TermNow,
                  exp |-> answer, base |-> Predict({}, Delivered, TermNow), fwd |-> fwd,
                  alt |-> [d \in RealDevs |-> Predict({d}, Delivered, TermNow)]]))
